@@ -505,11 +505,15 @@ int tls13_sign_certificate_verify(int tls_mode,
 	dgst_ctx = *tbs_dgst_ctx;
 	digest_finish(&dgst_ctx, dgst, &dgstlen);
 
-	sm2_sign_init(&sign_ctx, key, signer_id, signer_id_len);
-	sm2_sign_update(&sign_ctx, prefix, 64);
-	sm2_sign_update(&sign_ctx, context_str_and_zero, context_str_and_zero_len);
-	sm2_sign_update(&sign_ctx, dgst, dgstlen);
-	sm2_sign_finish(&sign_ctx, sig, siglen);
+	if (sm2_sign_init(&sign_ctx, key, signer_id, signer_id_len) != 1
+		|| sm2_sign_update(&sign_ctx, prefix, 64) != 1
+		|| sm2_sign_update(&sign_ctx, context_str_and_zero, context_str_and_zero_len) != 1
+		|| sm2_sign_update(&sign_ctx, dgst, dgstlen) != 1
+		|| sm2_sign_finish(&sign_ctx, sig, siglen) != 1) {
+		gmssl_secure_clear(&sign_ctx, sizeof(sign_ctx));
+		error_print();
+		return -1;
+	}
 
 	gmssl_secure_clear(&sign_ctx, sizeof(sign_ctx));
 	return 1;
@@ -1861,8 +1865,8 @@ int tls13_do_connect(TLS_CONNECT *conn)
 		// send {CertificateVerify*}
 		tls_trace("send {CertificateVerify*}\n");
 		client_sign_algor = TLS_sig_sm2sig_sm3; // FIXME: 应该放在conn里面
-		tls13_sign_certificate_verify(TLS_client_mode, &conn->sign_key, TLS13_SM2_ID, TLS13_SM2_ID_LENGTH, &dgst_ctx, sig, &siglen);
-		if (tls13_record_set_handshake_certificate_verify(record, &recordlen,
+		if (tls13_sign_certificate_verify(TLS_client_mode, &conn->sign_key, TLS13_SM2_ID, TLS13_SM2_ID_LENGTH, &dgst_ctx, sig, &siglen) != 1
+			|| tls13_record_set_handshake_certificate_verify(record, &recordlen,
 			client_sign_algor, sig, siglen) != 1) {
 			error_print();
 			tls_send_alert(conn, TLS_alert_internal_error);
@@ -2201,8 +2205,8 @@ int tls13_do_accept(TLS_CONNECT *conn)
 
 	// send Server {CertificateVerify}
 	tls_trace("send {CertificateVerify}\n");
-	tls13_sign_certificate_verify(TLS_server_mode, &conn->sign_key, TLS13_SM2_ID, TLS13_SM2_ID_LENGTH, &dgst_ctx, sig, &siglen);
-	if (tls13_record_set_handshake_certificate_verify(record, &recordlen,
+	if (tls13_sign_certificate_verify(TLS_server_mode, &conn->sign_key, TLS13_SM2_ID, TLS13_SM2_ID_LENGTH, &dgst_ctx, sig, &siglen) != 1
+		|| tls13_record_set_handshake_certificate_verify(record, &recordlen,
 		TLS_sig_sm2sig_sm3, sig, siglen) != 1) {
 		error_print();
 		tls_send_alert(conn, TLS_alert_internal_error);
